@@ -66,10 +66,12 @@ class IsReallyZero(Contract):
 
 @contract
 class CompactClassPairsKeepsEveryCell(Contract):
-    """compact_class_pairs on a 2 x 3 class matrix whose cells have symbolic values (one cell
+    """compact_class_pairs on a 3 x 4 class matrix (the last row and the last column belong to classes without glyphs) whose cells have symbolic values (one cell
     with only a device, one cell all-zero by value): the clustering and the subtable builder
     are stubbed to hand back what they receive, and every cell with any effect arrives there
-    under (glyphs of its first class, glyphs of its second class) with its own value records."""
+    under (glyphs of its first class, glyphs of its second class) with its own value records;
+    when a cell against second class 0 ("every other glyph", which no second-glyph coverage can
+    name) has an effect, the subtable is handed back untouched instead."""
     module = "fontTools.otlLib.optimize.gpos"
     qualname = "compact_class_pairs"
     props = ("C06",)
@@ -90,14 +92,14 @@ class CompactClassPairsKeepsEveryCell(Contract):
         st.Coverage = ot.Coverage()
         st.Coverage.glyphs = ["A", "B", "C"]
         st.ClassDef1, st.ClassDef2 = ot.ClassDef(), ot.ClassDef()
-        st.ClassDef1.classDefs = {"B": 1, "C": 1}
-        st.ClassDef2.classDefs = {"x": 1, "y": 2, "z": 2}
+        st.ClassDef1.classDefs = {"B": 1, "C": 1, "Q": 2}      # Q is not covered: first class 2 never applies
+        st.ClassDef2.classDefs = {"x": 1, "y": 2, "z": 2}        # no glyph has second class 3
         cells = {}
         st.Class1Record = []
-        for i in range(2):
+        for i in range(3):
             c1 = ot.Class1Record()
             c1.Class2Record = []
-            for j in range(3):
+            for j in range(4):
                 rec = ot.Class2Record()
                 devs = ["XAdvDevice"] if (i, j) == (1, 2) else []
                 v1, n1 = _value(S, "c%d%d.v1" % (i, j), NUMERIC[2:3], devs)
@@ -121,15 +123,25 @@ class CompactClassPairsKeepsEveryCell(Contract):
     def _post(a, r):
         if len(r) != 1:
             return False
+        effect = {ij: Or(dev, *[Not(eq(x, 0)) for x in nums]) for ij, (rec, nums, dev) in a._cells.items()}
+        if r[0] is a.subtable:
+            # left alone: only because some cell against "every other glyph" (second class 0) has an effect
+            return Or(effect[(0, 0)], effect[(1, 0)])          # (2, 0) is in a row that never applies
         pairs = r[0]
         c1 = {0: ("A",), 1: ("B", "C")}
-        c2 = {0: (), 1: ("x",), 2: ("y", "z")}
+        c2 = {1: ("x",), 2: ("y", "z")}
         cs = []
+        if any(not k[0] or not k[1] for k in pairs):
+            return False                                # a pair keyed by an empty class names no glyph at all
         for (i, j), (rec, nums, dev) in a._cells.items():
+            if i == 2 or j == 3:
+                continue                                # a class without glyphs: the cell can never apply
+            if j == 0:
+                cs.append(Not(effect[(i, j)]))          # such a cell cannot be regrouped by second-glyph coverage
+                continue
             key = (c1[i], c2[j])
             there = key in pairs and pairs[key][0] is rec.Value1 and pairs[key][1] is rec.Value2
-            effect = Or(dev, *[Not(eq(x, 0)) for x in nums])
-            cs.append(Implies(effect, there))
+            cs.append(Implies(effect[(i, j)], there))
         return And(*cs)
 
     ensures = [prop("every-cell-with-an-effect-reaches-the-regrouping", lambda a, old, r: CompactClassPairsKeepsEveryCell._post(a, r))]
